@@ -155,6 +155,11 @@ func (w *wire) Read(p []byte) (int, error) {
 	if len(p) == 0 {
 		return 0, nil
 	}
+	if w.pos >= len(w.data) && (w.fault == "" || w.faultAt >= len(w.data)) {
+		// the end of the message came with its last byte (length known, or END_STREAM on the last frame):
+		// reporting it takes no further network wait
+		return 0, io.EOF
+	}
 	if !w.first {
 		// later chunks arrive in later scheduler steps
 		if w.r.Sim.Aborted() {
